@@ -985,7 +985,7 @@ CONSTANTS
 %s
 CHECK_DEADLOCK FALSE
 """
-MPCL_ALL_KINDS = '{"const", "lit", "bin", "cmp", "logic", "neg", "shift", "cast", "if", "ifnest", "ifret", "loop", "arr", "call", "struct"}'
+MPCL_ALL_KINDS = '{"const", "lit", "bin", "cmp", "logic", "neg", "shift", "cast", "if", "ifnest", "ifret", "loop", "arr", "mat", "call", "struct"}'
 
 
 def mpcl_cases(ctx, name, widths, nstmts, num, kinds=MPCL_ALL_KINDS, limit=None):
@@ -1028,9 +1028,9 @@ def c03(ctx):
                         kinds='{"cmp", "lit", "bin", "if", "ifnest", "ifret", "logic"}')
     # data structures only: arrays and structs built, read, updated from variables and from literals
     cases += mpcl_cases(ctx, "mpcl-gen-d", "{3, 8}", 7, 3000 if thorough else 500, limit=9000 if thorough else 1200,
-                        kinds='{"arr", "struct", "neg"}')
+                        kinds='{"arr", "mat", "struct", "neg"}')
     cases += mpcl_cases(ctx, "mpcl-gen-e", "{5, 13}", 6, 1500 if thorough else 250, limit=4000 if thorough else 600,
-                        kinds='{"arr", "struct"}')
+                        kinds='{"arr", "mat", "struct"}')
     cf = os.path.join(ctx.tmp, "c03cases.ndjson")
     write_ndjson(cf, cases)
     rf = os.path.join(ctx.tmp, "c03res.ndjson")
